@@ -3,6 +3,7 @@ module verif/harness
 go 1.20
 
 require (
+	github.com/dgraph-io/badger v1.6.0
 	github.com/mosaicnetworks/babble v0.0.0
 	github.com/sirupsen/logrus v1.2.0
 )
@@ -10,7 +11,6 @@ require (
 require (
 	github.com/AndreasBriese/bbloom v0.0.0-20190306092124-e2d15f34fcf9 // indirect
 	github.com/btcsuite/btcd v0.0.0-20190523000118-16327141da8c // indirect
-	github.com/dgraph-io/badger v1.6.0 // indirect
 	github.com/dgryski/go-farm v0.0.0-20190423205320-6a90982ecee2 // indirect
 	github.com/dustin/go-humanize v1.0.0 // indirect
 	github.com/golang/protobuf v1.3.1 // indirect
